@@ -45,6 +45,12 @@ func init() {
 		"(*github.com/heimdalr/dag.DAG).AddVertexByID", "(*github.com/heimdalr/dag.DAG).AddEdge", "(*github.com/heimdalr/dag.DAG).DeleteVertex",
 		"github.com/heimdalr/dag.NewDAG",
 		"github.com/dgraph-io/badger/v4.NewEntry",
+		"(*github.com/dgraph-io/badger/v4.Txn).Get", "(*github.com/dgraph-io/badger/v4.Txn).Set", "(*github.com/dgraph-io/badger/v4.Txn).SetEntry",
+		"(*github.com/dgraph-io/badger/v4.Txn).Delete", "(*github.com/dgraph-io/badger/v4.Item).Value", "(*github.com/dgraph-io/badger/v4.Item).Key",
+		"(*github.com/dgraph-io/badger/v4.DB).View", "(*github.com/dgraph-io/badger/v4.DB).Update",
+		"(*github.com/dgraph-io/badger/v4.Txn).NewIterator", "(*github.com/dgraph-io/badger/v4.Iterator).Close", "(*github.com/dgraph-io/badger/v4.Iterator).Seek",
+		"(*github.com/dgraph-io/badger/v4.Iterator).Next", "(*github.com/dgraph-io/badger/v4.Iterator).Valid", "(*github.com/dgraph-io/badger/v4.Iterator).ValidForPrefix",
+		"(*github.com/dgraph-io/badger/v4.Iterator).Item", "(*github.com/dgraph-io/badger/v4.DB).Backup",
 		"github.com/vmihailenco/msgpack.Marshal",
 		"google.golang.org/protobuf/internal/impl.X", // placeholder
 		"os.Create", "os.Stat", "(*os.File).Close",
